@@ -535,6 +535,11 @@ def stream_logs(name, tier, seed, specs, heuristics, rule):
         spec, heur, expected, info = metas[i]
         mism.append(dict(kind="model-differs", spec=spec, heuristic=heur, implementation=jsonable(expected)[0][-12:],
                          implementation_flags=expected[1:], model=model_output(IMPORTS, RUN, cases[i][0])[-3000:]))
+    # a disagreement between model and implementation is a violation in its own right (the driver only turns a broken
+    # stream into a violation when no other problem was reported, and the known-finding triggers are reported here)
+    for i in bad[:3]:
+        problems.append(dict(kind="model-differs", spec=metas[i][0], heuristic=metas[i][1],
+                             implementation_tail=jsonable(metas[i][2])[0][-6:], flags=metas[i][2][1:]))
     rows = hist.pop("rows")
     lm = hist.pop("lmis")
     hist.update(rows_min=min(rows or [0]), rows_max=max(rows or [0]), rows_mean=round(sum(rows) / max(1, len(rows)), 1),
@@ -552,10 +557,12 @@ def gen_specs(rng, n):
         force = forces[len(specs)] if len(specs) < len(forces) else (None if rng.random() < 0.9 else rng.choice(forces[:5]))
         spec = gen_spec(rng, force)
         try:
-            with moseklib.quiet():
-                build(spec)
+            rec = record_sent(spec)
         except Exception:
             continue
+        if any(it[0] == "LMI" and len(it[1]) == 0 for it in rec["sent"]):
+            continue        # a 0 x 0 class LMI (LinearOperator without transpose samples): PEPit's own post-processing
+                            # (np.linalg.eigh of an empty PSDMatrix.eval()) fails on BOTH paths; outside this property
         specs.append(spec)
     return specs
 
@@ -878,7 +885,7 @@ def _replay_trigger(trig):
         rec = record_sent(spec)
         exp = expectations(rec)
         res = run_mosek(spec, scripted=False)
-        if res["raised"] or (res["value"] is not None and False):
+        if res["raised"] and res["raised"][0] == "AssertionError":
             return dict(kind="objective-not-last-leaf", spec=spec, raised=list(res["raised"]) if res["raised"] else None,
                         objective_counter=rec["obj"], expression_counter=rec["ec"], psd_counters=exp["ctrs"], rows=exp["rows"])
         return None
@@ -917,8 +924,8 @@ def known_findings(known):
             except Exception:
                 got = dict(kind="replay-crashed", error=traceback.format_exc()[-800:])
             still.append(bool(got) and got.get("kind") == t["kind"] and _confirms(t["kind"], got))
-        out.append((k["id"], all(still), "%s [%d/%d triggers reproduce on the real wrapper running on the stand-in]"
-                    % (k["what"], sum(still), len(still))))
+        out.append((k["id"], all(still), "%s... [%d/%d triggers reproduce on the real wrapper running on the stand-in; %s]"
+                    % (k["what"][:160], sum(still), len(still), k.get("coq", ""))))
     return out
 
 
